@@ -615,6 +615,18 @@ def prove(ring, ob, timeout_s=30.0, seed=0):
         if v is True:
             return Verdict("proved", "nf-pc", time.time() - t0)
     if ring.mode == "real":
+        if goal.op == "and" and len(goal.args) <= 12:
+            # prove the conjuncts one by one (an equivalence is two implications): smaller NRA queries
+            tot = 0.0
+            backends = set()
+            for g in goal.args:
+                v = prove_real(ring, hyps, g, meta, ob.facts, timeout_s, seed)
+                backends.add(v.backend)
+                if v.status != "proved":
+                    v.seconds = time.time() - t0
+                    v.detail = (v.detail + " [conjunct %s]" % repr(g)[:160]).strip()
+                    return v
+            return Verdict("proved", "+".join(sorted(backends)), time.time() - t0)
         return prove_real(ring, hyps, goal, meta, ob.facts, timeout_s, seed)
     if goal.op == "and":
         # prove the conjuncts one by one (keeps the negated goal a clause or a set of units)
